@@ -2,7 +2,9 @@
 The pipeline of `decoder.Start` after the context was cancelled (Close, cancellation, or the serializer's own
 deferred cancel): every blocking operation of the three kinds of goroutines is a `select` with a
 `<-dec.ctx.Done()` branch, the reader's loop condition is false, decoders drain their input queue and end
-when it is closed. Shown: every step lowers a measure (no infinite run) and while a goroutine is alive
+when it is closed. The one blocking operation that is not a `select` is the reader's send of a resumed scan's
+first data block to decoder 0 before its loop (`first`): it completes because a decoder leaves its receive loop
+only when the input queues are closed, which only the reader does, after its loop. Shown: every step lowers a measure (no infinite run) and while a goroutine is alive
 some step is enabled (no deadlock) — so all goroutines end, whatever the schedule.
 
 Fairness is needed at exactly one place and is made explicit: a receive from an already closed output
@@ -12,7 +14,7 @@ queue succeeds at once with a zero value, so the serializer's `select` could kee
 namespace OsmVerif.Model.PipelineStop
 
 inductive RPC where
-  | head | sending | done
+  | first | head | sending | done
   deriving DecidableEq, Repr
 
 inductive WPC where
@@ -33,6 +35,7 @@ structure St where
   spurious : Nat
 
 inductive Step where
+  | readerFirstSent            -- the bare send before the loop (resumed scan): handed to decoder 0
   | readerExit                 -- loop condition false: leave the loop, close all input queues (deferred)
   | readerSent (w : Nat) (enq : Bool)   -- the select after a read: queued to decoder w, or Done
   | workerTake (w : Nat)
@@ -48,6 +51,11 @@ def upd (f : Nat → α) (i : Nat) (v : α) : Nat → α := fun j => if j = i th
 
 /-- one step with `n` decoders; `none` = not enabled -/
 def step (n : Nat) (s : St) : Step → Option St
+  | .readerFirstSent =>
+    -- decoder 0 receives with `for p := range input`: it takes the block as long as it has not returned
+    if s.reader = .first ∧ 0 < n ∧ s.worker 0 ≠ .done then
+      some { s with reader := .head, inputs := upd s.inputs 0 (s.inputs 0 + 1) }
+    else none
   | .readerExit => if s.reader = .head then some { s with reader := .done, inputsClosed := true } else none
   | .readerSent w enq =>
     if s.reader = .sending ∧ w < n then
@@ -76,7 +84,7 @@ def step (n : Nat) (s : St) : Step → Option St
 
 def allDone (n : Nat) (s : St) : Prop := s.reader = .done ∧ (∀ w, w < n → s.worker w = .done) ∧ s.ser = .done
 
-def rW : RPC → Nat | .head => 1 | .sending => 6 | .done => 0
+def rW : RPC → Nat | .first => 7 | .head => 1 | .sending => 6 | .done => 0
 def wW : WPC → Nat | .idle => 1 | .sending => 4 | .done => 0
 def sW : SPC → Nat | .waiting => 2 | .forwarding => 3 | .done => 0
 
@@ -124,6 +132,18 @@ theorem sum_change (n w : Nat) (hw : w < n) (s s' : St) (h : ∀ v, v ≠ w → 
 theorem step_decreases (n : Nat) (s s' : St) (a : Step) (h : step n s a = some s') : mu n s' < mu n s := by
   rw [mu_eq, mu_eq]
   cases a with
+  | readerFirstSent =>
+    simp only [step] at h
+    split at h
+    · rename_i hc
+      cases h
+      have := sum_change n 0 hc.2.1 s { s with reader := .head, inputs := upd s.inputs 0 (s.inputs 0 + 1) }
+        (fun v hv => by simp [summand, upd, hv])
+      have e : summand { s with reader := RPC.head, inputs := upd s.inputs 0 (s.inputs 0 + 1) } 0 = summand s 0 + 4 := by
+        simp [summand, upd]; omega
+      simp only [hc.1, rW]
+      omega
+    · cases h
   | readerExit =>
     simp only [step] at h
     split at h
@@ -225,21 +245,44 @@ theorem step_decreases (n : Nat) (s s' : St) (a : Step) (h : step n s a = some s
       simp [this, hc, sW]
     · cases h
 
-/-- consistency that every reachable state has: a reader that has left its loop has closed the input queues -/
-def Consistent (s : St) : Prop := s.reader = .done → s.inputsClosed = true
+/-- consistency that every reachable state has: a reader that has left its loop has closed the input queues; a
+    reader still before its loop has not; and no decoder has returned while the input queues are open -/
+def Consistent (s : St) : Prop :=
+  (s.reader = .done → s.inputsClosed = true) ∧ (s.reader = .first → s.inputsClosed = false) ∧
+  (s.inputsClosed = false → ∀ w, s.worker w ≠ .done)
 
 theorem consistent_step (n : Nat) (s s' : St) (a : Step) (hc : Consistent s) (h : step n s a = some s') : Consistent s' := by
   unfold Consistent at *
+  obtain ⟨c1, c2, c3⟩ := hc
   cases a <;> simp only [step] at h <;> split at h
-  case readerExit.isTrue => cases h; intro _; rfl
-  case readerSent.isTrue => cases h; intro hr; simp at hr
-  case workerTake.isTrue => cases h; exact hc
-  case workerExit.isTrue => cases h; exact hc
-  case workerSent.isTrue => cases h; exact hc
-  case serDone.isTrue => cases h; exact hc
-  case serRecv.isTrue => cases h; exact hc
-  case serRecvClosed.isTrue => cases h; exact hc
-  case serSent.isTrue => cases h; exact hc
+  case readerFirstSent.isTrue hcnd =>
+    cases h
+    exact ⟨fun hr => by simp at hr, fun hr => by simp at hr, fun hi => c3 hi⟩
+  case readerExit.isTrue => cases h; exact ⟨fun _ => rfl, fun hr => by simp at hr, fun hi => by simp at hi⟩
+  case readerSent.isTrue => cases h; exact ⟨fun hr => by simp at hr, fun hr => by simp at hr, fun hi => c3 hi⟩
+  case workerTake.isTrue hcnd =>
+    cases h
+    refine ⟨c1, c2, fun hi w => ?_⟩
+    simp only [upd]
+    split
+    · simp
+    · exact c3 hi w
+  case workerExit.isTrue hcnd =>
+    cases h
+    refine ⟨c1, fun hr => ?_, fun hi => ?_⟩
+    · have := c2 hr; rw [hcnd.2.2.2] at this; cases this
+    · rw [hcnd.2.2.2] at hi; cases hi
+  case workerSent.isTrue hcnd =>
+    cases h
+    refine ⟨c1, c2, fun hi w => ?_⟩
+    simp only [upd]
+    split
+    · simp
+    · exact c3 hi w
+  case serDone.isTrue => cases h; exact ⟨c1, c2, c3⟩
+  case serRecv.isTrue => cases h; exact ⟨c1, c2, c3⟩
+  case serRecvClosed.isTrue => cases h; exact ⟨c1, c2, c3⟩
+  case serSent.isTrue => cases h; exact ⟨c1, c2, c3⟩
   all_goals cases h
 
 /-- **no deadlock**: while some goroutine is alive, some step is enabled -/
@@ -257,9 +300,12 @@ theorem progress (n : Nat) (hn : 0 < n) (s : St) (hcs : Consistent s) (h : ¬ al
         by_cases hi : 0 < s.inputs w
         · exact ⟨.workerTake w, by simp [step, hwn, hc, hi]⟩
         · have hz : s.inputs w = 0 := by omega
-          exact ⟨.workerExit w, by simp [step, hwn, hc, hz, hcs hr]⟩
+          exact ⟨.workerExit w, by simp [step, hwn, hc, hz, hcs.1 hr]⟩
     · cases hc : s.reader with
       | done => exact absurd hc hr
+      | first =>
+        have h0 := hcs.2.2 (hcs.2.1 hc) 0
+        exact ⟨.readerFirstSent, by simp [step, hc, hn, h0]⟩
       | head => exact ⟨.readerExit, by simp [step, hc]⟩
       | sending => exact ⟨.readerSent 0 false, by simp [step, hc, hn]⟩
   · exact ⟨.serDone, by simp [step, hs]⟩
